@@ -12,7 +12,8 @@ TRUSTED = vcheck.STD_TRUSTED + [
     "sensitivity as probed on the live store: h_query -mode probe); graphs are read back from the store before modelling",
     "collision-free vocabulary (node type/id concatenation, untagged literal bytes: property C06)",
     "time.Time modelled as (UnixNano, zone offset); reflect.DeepEqual on parsed times = equality of both",
-    "the serialisation of semantic.GraphClause through its exported fields (harness/cmd/h_query/main.go: jClause)",
+    "the model is fed from the WRITTEN statement (planner_common.intended: an independent reader of the generator's text format); "
+    "the parsed semantic.GraphClause / projections / global bounds, serialised field by field by h_query (jClause), must be identical",
 ]
 
 HEADER = """From Coq Require Import List ZArith NArith Bool.
@@ -323,7 +324,7 @@ def run_family(ctx, prop, gen_args, describe):
     meta, crow = load_corpus(prop)
     rows = hquery(["-mode", "gen", "-seed", str(ctx.seed)] + gen_args)
     allrows = crow + rows
-    cases = [r for r in allrows if modelable(r)]
+    cases = use_written(ctx, [r for r in allrows if modelable(r)])
     verd = evaluate(ctx, "cases_" + prop.lower(), cases, env)
     byid = {}
     nviol = 0
@@ -387,3 +388,275 @@ def run_family(ctx, prop, gen_args, describe):
         ctx.broken("generator health: more than 30% of the generated statements end in an error", json.dumps(ctx.cov["distribution"]))
     ctx.cov["describe"] = describe
     return cases, verd
+
+
+# ---------------------------------------------------------------- the WRITTEN statement, independently of the BQL front end
+# The generator writes statements in a small fixed format.  intended() reads that text back with its own reader (BQL
+# documentation semantics, not bql/semantic/hooks.go) into the same structure the harness serialises from the PARSED
+# semantic.Statement.  The model is fed from the written structure; any difference between the two is reported as
+# "parsed-clause-differs-from-written-clause" (a WHERE / projection / global-bound hook storing something in the wrong place
+# would otherwise be invisible: model and engine would both see the wrong clause).
+import calendar, struct
+
+
+class NotInFormat(Exception):
+    pass
+
+
+def w_time(s):
+    m = re.fullmatch(r"(\d{4})-(\d\d)-(\d\d)T(\d\d):(\d\d):(\d\d)(Z|[+-]\d\d:\d\d)", s)
+    if not m:
+        raise NotInFormat("time " + s)
+    y, mo, d, h, mi, sec = (int(x) for x in m.groups()[:6])
+    z = m.group(7)
+    off = 0 if z == "Z" else (1 if z[0] == "+" else -1) * (int(z[1:3]) * 3600 + int(z[4:6]) * 60)
+    return {"ns": (calendar.timegm((y, mo, d, h, mi, sec)) - off) * 10**9, "z": off}
+
+
+def w_node(tok):
+    m = re.fullmatch(r"(/[^<>\s]+)<([^<>]*)>", tok)
+    if not m:
+        raise NotInFormat("node " + tok)
+    return {"t": m.group(1), "id": m.group(2)}
+
+
+def w_literal(tok):
+    m = re.fullmatch(r'"(.*)"\^\^type:(\w+)', tok, flags=re.S)
+    if not m:
+        raise NotInFormat("literal " + tok)
+    v, k = m.group(1), m.group(2)
+    if k == "bool":
+        return {"k": "bool", "v": v == "true"}
+    if k == "int64":
+        return {"k": "int64", "v": str(int(v))}
+    if k == "float64":
+        return {"k": "float64", "v": str(struct.unpack("<Q", struct.pack("<d", float(v)))[0])}
+    if k == "text":
+        return {"k": "text", "v": v}
+    if k == "blob":
+        return {"k": "blob", "v": [int(x) for x in v.strip("[]").split()]}
+    raise NotInFormat("literal type " + k)
+
+
+def w_tokens(s):
+    toks, i = [], 0
+    while i < len(s):
+        ch = s[i]
+        if ch.isspace():
+            i += 1
+        elif ch == '"':
+            j = i + 1
+            while True:
+                j = s.index('"', j)
+                if s.startswith('"@[', j):
+                    e = s.index("]", j) + 1
+                    break
+                if s.startswith('"^^type:', j):
+                    e = j + 8
+                    while e < len(s) and (s[e].isalnum()):
+                        e += 1
+                    break
+                j += 1
+            toks.append(s[i:e])
+            i = e
+        elif ch == "/":
+            e = s.index(">", i) + 1
+            toks.append(s[i:e])
+            i = e
+        elif ch in "{}.,;":
+            toks.append(ch)
+            i += 1
+        else:
+            e = i
+            while e < len(s) and not s[e].isspace() and s[e] not in "{},;":
+                e += 1
+            # a clause separator is " . ": a dot inside a word (times) stays
+            toks.append(s[i:e])
+            i = e
+    return toks
+
+
+EMPTY_CLAUSE = {"Optional": False, "S": None, "SBinding": "", "SAlias": "", "STypeAlias": "", "SIDAlias": "",
+                "P": None, "PID": "", "PBinding": "", "PAlias": "", "PIDAlias": "", "PAnchorBinding": "", "PAnchorAlias": "",
+                "PLowerBound": None, "PUpperBound": None, "PLowerBoundAlias": "", "PUpperBoundAlias": "", "PTemporal": False,
+                "O": None, "OBinding": "", "OAlias": "", "OID": "", "OTypeAlias": "", "OIDAlias": "", "OAnchorBinding": "",
+                "OAnchorAlias": "", "OLowerBound": None, "OUpperBound": None, "OLowerBoundAlias": "", "OUpperBoundAlias": "",
+                "OTemporal": False}
+
+
+def w_predicate(tok, c, pos):
+    """pos = 'P' or 'O': fills the predicate-shaped part of the clause from a token "id"@[...]"""
+    m = re.fullmatch(r'"(.+)"@\[(.*)\]', tok)
+    if not m:
+        raise NotInFormat("predicate " + tok)
+    pid, inner = m.group(1), m.group(2)
+    if inner == "":
+        p = {"id": pid, "a": None}
+    elif "," in inner:
+        lo, up = inner.split(",")
+        c[pos + "ID"], c[pos + "Temporal"] = pid, True
+        for part, bound, alias in ((lo, pos + "LowerBound", pos + "LowerBoundAlias"), (up, pos + "UpperBound", pos + "UpperBoundAlias")):
+            if part.startswith("?"):
+                c[alias] = part
+            elif part != "":
+                c[bound] = w_time(part)
+        return
+    elif inner.startswith("?"):
+        c[pos + "ID"], c[pos + "AnchorBinding"], c[pos + "Temporal"] = pid, inner, True
+        return
+    else:
+        p = {"id": pid, "a": w_time(inner)}
+    c[pos + "Temporal"] = p["a"] is not None
+    c[pos] = p if pos == "P" else {"p": p}
+
+
+def w_clause(toks, optional):
+    c = dict(EMPTY_CLAUSE)
+    c["Optional"] = optional
+    i = 0
+
+    def mods(allowed):
+        nonlocal i
+        while i + 1 < len(toks) and toks[i] in allowed:
+            if not toks[i + 1].startswith("?"):
+                raise NotInFormat("modifier")
+            c[allowed[toks[i]]] = toks[i + 1]
+            i += 2
+    # subject
+    if toks[i].startswith("/"):
+        c["S"] = w_node(toks[i])
+    elif toks[i].startswith("?"):
+        c["SBinding"] = toks[i]
+    else:
+        raise NotInFormat("subject")
+    i += 1
+    mods({"AS": "SAlias", "TYPE": "STypeAlias", "ID": "SIDAlias"})
+    # predicate
+    if toks[i].startswith('"'):
+        w_predicate(toks[i], c, "P")
+    elif toks[i].startswith("?"):
+        c["PBinding"] = toks[i]
+    else:
+        raise NotInFormat("predicate")
+    i += 1
+    mods({"AS": "PAlias", "ID": "PIDAlias", "AT": "PAnchorAlias"})
+    # object
+    t = toks[i]
+    if t.startswith("/"):
+        c["O"] = {"n": w_node(t)}
+    elif t.startswith('"') and '"^^type:' in t:
+        c["O"] = {"l": w_literal(t)}
+    elif t.startswith('"'):
+        w_predicate(t, c, "O")
+    elif t.startswith("?"):
+        c["OBinding"] = t
+    else:
+        raise NotInFormat("object")
+    i += 1
+    mods({"AS": "OAlias", "TYPE": "OTypeAlias", "ID": "OIDAlias", "AT": "OAnchorAlias"})
+    if i != len(toks):
+        raise NotInFormat("trailing tokens in clause")
+    return c
+
+
+def intended(text):
+    """the statement as written: clauses, global bounds, projections, outputs, FROM graphs"""
+    m = re.fullmatch(r"SELECT (.*?) FROM (.*?) WHERE \{ (.*) \}( (BEFORE|AFTER|BETWEEN) (.*))?;", text, flags=re.S)
+    if not m:
+        raise NotInFormat("statement")
+    projs, outs = [], []
+    for p in m.group(1).split(", "):
+        pm = re.fullmatch(r"(\?\w+)( AS (\?\w+))?", p)
+        if not pm:
+            raise NotInFormat("projection " + p)
+        projs.append({"b": pm.group(1), "a": pm.group(3) or "", "op": 0})
+        outs.append(pm.group(3) or pm.group(1))
+    frm = m.group(2).split(", ")
+    toks = w_tokens(m.group(3))
+    clauses, cur, optional, depth = [], [], False, 0
+    k = 0
+    while k < len(toks):
+        t = toks[k]
+        if t == "OPTIONAL":
+            if toks[k + 1] != "{":
+                raise NotInFormat("OPTIONAL")
+            optional, depth = True, 1
+            k += 2
+            continue
+        if t == "}":
+            clauses.append(w_clause(cur, True))
+            cur, optional, depth = [], False, 0
+            k += 1
+            if k < len(toks) and toks[k] == ".":
+                k += 1
+            continue
+        if t == "." and depth == 0:
+            clauses.append(w_clause(cur, False))
+            cur = []
+            k += 1
+            continue
+        cur.append(t)
+        k += 1
+    if cur:
+        clauses.append(w_clause(cur, False))
+    lo = {"lower": None, "upper": None, "max": 0}
+    if m.group(5) == "BEFORE":
+        lo["upper"] = w_time(m.group(6))
+    elif m.group(5) == "AFTER":
+        lo["lower"] = w_time(m.group(6))
+    elif m.group(5) == "BETWEEN":
+        a, b = m.group(6).split(", ")
+        lo["lower"], lo["upper"] = w_time(a), w_time(b)
+    return {"clauses": clauses, "lo": lo, "projs": projs, "outs": outs, "from": frm}
+
+
+def written_vs_parsed(case):
+    """None when the parsed statement is the written one; otherwise a description of the first difference.
+    Returns "unreadable" when the text is outside the generator's format (malformed stream)."""
+    try:
+        w = intended(case["query"])
+    except (NotInFormat, ValueError, IndexError):
+        return "unreadable", None
+    diffs = []
+    pc_ = case.get("clauses") or []
+    if len(pc_) != len(w["clauses"]):
+        diffs.append("number of clauses: written %d, parsed %d" % (len(w["clauses"]), len(pc_)))
+    for i, (a, b) in enumerate(zip(w["clauses"], pc_)):
+        for k in EMPTY_CLAUSE:
+            if a[k] != b.get(k):
+                diffs.append("clause %d field %s: written %r, parsed %r" % (i, k, a[k], b.get(k)))
+    for k in ("lower", "upper"):
+        if w["lo"][k] != case["lo"][k]:
+            diffs.append("global bound %s: written %r, parsed %r" % (k, w["lo"][k], case["lo"][k]))
+    pp = [{"b": p["b"], "a": p["a"]} for p in (case.get("projs") or [])]
+    if [{"b": p["b"], "a": p["a"]} for p in w["projs"]] != pp:
+        diffs.append("projections: written %r, parsed %r" % (w["projs"], pp))
+    if any(p.get("op", 0) != 0 for p in (case.get("projs") or [])):
+        diffs.append("projection carries an aggregate that was not written")
+    if w["outs"] != (case.get("outs") or []):
+        diffs.append("output bindings: written %r, parsed %r" % (w["outs"], case.get("outs")))
+    if w["from"] != (case.get("from") or []):
+        diffs.append("FROM graphs: written %r, parsed %r" % (w["from"], case.get("from")))
+    return (diffs[0] if diffs else None), w
+
+
+def use_written(ctx, cases):
+    """replace the parsed structure by the written one (the model's input); report differences"""
+    out, nbad, nread = [], 0, 0
+    for c in cases:
+        d, w = written_vs_parsed(c)
+        if d == "unreadable":
+            ctx.notes.append("statement outside the generator format, modelled from the parsed structure: " + c["query"][:120])
+            out.append(c)
+            continue
+        nread += 1
+        if d is not None:
+            nbad += 1
+            if nbad <= 5:
+                ctx.violation({"kind": "parsed-clause-differs-from-written-clause", "difference": d, "query": c["query"]})
+        c2 = dict(c)
+        c2["parsed"] = {k: c.get(k) for k in ("clauses", "lo", "projs", "outs")}
+        c2["clauses"], c2["lo"], c2["projs"], c2["outs"] = w["clauses"], w["lo"], w["projs"], w["outs"]
+        out.append(c2)
+    ctx.cov["written_vs_parsed"] = {"statements_read_back_from_text": nread, "differences": nbad}
+    return out
